@@ -48,6 +48,7 @@ func init() {
 }
 
 func runC07(p *chk.Prog, r *chk.Report) {
+	assignCommitsRule(p, r)
 	c07Release(p, r)
 	syncStateRule(p, r)
 	c07Scan(p, r)
